@@ -1,4 +1,6 @@
 """C07 — legacy serial primitives: one write, aligned replies, no exception on faults."""
+import inspect
+
 from hypothesis import strategies as st
 from hypothesis.stateful import RuleBasedStateMachine, rule
 
@@ -94,11 +96,16 @@ class Sim:
         port.begin_call(faults)
         name = text.split(",")[0].strip().lower()
         is_query = kind == "query"
+        # the trailing `verbose` flag of the pinned signatures is spelled three ways in turn (left out, positional
+        # False, keyword False); a signature that does not take the spelling gets the flag left out
+        fn = ebb_serial.query if is_query else ebb_serial.command
+        extra, kwargs = [((), {}), ((False,), {}), ((), {"verbose": False})][len(self.history) % 3]
         try:
-            if is_query:
-                result = ebb_serial.query(port, text)
-            else:
-                result = ebb_serial.command(port, text)
+            inspect.signature(fn).bind(port, text, *extra, **kwargs)
+        except (TypeError, ValueError):
+            extra, kwargs = (), {}
+        try:
+            result = fn(port, text, *extra, **kwargs)
         except Exception as exc:  # pylint: disable=broad-except
             self.fail("%s(%r) raised %s: %s (empties %r, fault %r)"
                       % (kind, text, type(exc).__name__, exc, empties, fault))
